@@ -92,27 +92,7 @@ Proof.
     cbv zeta; eexists; (split; [|reflexivity]); reflexivity.
 Qed.
 
-(* dict semantics of the merge: a key registered with the handler wins (last binding), other keys pass through *)
-Lemma kw_get_set k k' v kw : kw_get k (kw_set k' v kw) = if k =? k' then Some v else kw_get k kw.
-Proof.
-  induction kw as [|[k0 v0] kw IH]; cbn.
-  - destruct (k =? k'); reflexivity.
-  - destruct (k' =? k0) eqn:E1; cbn.
-    + apply Z.eqb_eq in E1. subst k0. destruct (k =? k'); reflexivity.
-    + destruct (k' <? k0) eqn:E2; cbn.
-      * destruct (k =? k'); reflexivity.
-      * rewrite IH. destruct (k =? k0) eqn:E3; [|reflexivity].
-        apply Z.eqb_eq in E3. subst k0. rewrite Z.eqb_sym, E1. reflexivity.
-Qed.
-
-Definition last_binding (k : Z) (d : list (Z * Z)) (dflt : option Z) : option Z :=
-  fold_left (fun acc kv => if k =? fst kv then Some (snd kv) else acc) d dflt.
-
-Lemma kw_get_update k : forall d kw, kw_get k (kw_update kw d) = last_binding k d (kw_get k kw).
-Proof.
-  unfold kw_update, last_binding. induction d as [|[k' v] d IH]; intros kw; cbn; [reflexivity|].
-  rewrite IH, kw_get_set. reflexivity.
-Qed.
+(* dict semantics of the merge (kw_get_set, last_binding, kw_get_update): LemSync.v *)
 
 Lemma queue_handler_kwargs_l :
   (forall k d kw, kw_get k (kw_update kw d) = last_binding k d (kw_get k kw)) /\
@@ -166,17 +146,37 @@ Qed.
 Lemma mode_start_fixed_fresh_l uwq ev : forallb fresh_action (mode_start_script uwq false ev) = true.
 Proof. destruct uwq; reflexivity. Qed.
 
+(* the relay event is posted WITHOUT arguments; handler 1 introduces k1, handler 2 is registered with k9=2 and must
+   see k1 as well, handler 3 (registered without kwargs) must not see k9 *)
+Definition ex_relay_hs : list shandler :=
+  [mkSH 1 3 [] None (beh_fun (BConst (RDict [(1, 10)]))); mkSH 2 2 [(9, 2)] None (beh_fun (BIncr 1));
+   mkSH 3 1 [] None (beh_fun (BIncr 1))].
+
 Lemma ex_relay :
-  let hs := [mkSH 1 (beh_fun (BIncr 1)); mkSH 2 (beh_fun (BConst (RDict [(2, 7)]))); mkSH 3 (beh_fun (BIncr 1))] in
-  so_seen (run_sync TRelay hs [(1, 5)] [] RNone) = [(1, [(1, 5)]); (2, [(1, 6)]); (3, [(1, 6); (2, 7)])] /\
-  so_kwargs (run_sync TRelay hs [(1, 5)] [] RNone) = [(1, 7); (2, 7)].
-Proof. vm_compute. split; reflexivity. Qed.
+  so_seen (run_sync TRelay ex_relay_hs ([], None) [] RNone)
+    = [(1, ([], None)); (2, ([(1, 10); (9, 2)], None)); (3, ([(1, 11)], None))] /\
+  so_st (run_sync TRelay ex_relay_hs ([], None) [] RNone) = ([(1, 12)], None) /\
+  calls TRelay [] ex_relay_hs ([], None) = so_seen (run_sync TRelay ex_relay_hs ([], None) [] RNone).
+Proof. vm_compute. repeat split; reflexivity. Qed.
+
+(* handler 1 blocks facility 7 below priority 5; handler 2 (facility 7, priority 3) is skipped; handler 3 returns
+   False because it sees k1 = 5; handler 4 is not called *)
+Definition ex_boolean_hs : list shandler :=
+  [mkSH 1 10 [] None (beh_fun (BBlock 7 5)); mkSH 2 3 [] (Some 7) (beh_fun (BConst (RBool false)));
+   mkSH 3 2 [(1, 5)] None (beh_fun (BFalseIf 1 5)); mkSH 4 1 [] None (beh_fun (BConst RNone))].
 
 Lemma ex_boolean :
-  let hs := [mkSH 1 (beh_fun (BConst (RBool true))); mkSH 2 (beh_fun (BFalseIf 1 5)); mkSH 3 (beh_fun (BConst RNone))] in
-  map fst (so_seen (run_sync TBoolean hs [(1, 5)] [] RNone)) = [1; 2] /\
-  callback_evres (run_sync TBoolean hs [(1, 5)] [] RNone) = EFalse.
-Proof. vm_compute. split; reflexivity. Qed.
+  map fst (so_seen (run_sync TBoolean ex_boolean_hs ([(1, 4)], None) [] RNone)) = [1; 3] /\
+  callback_evres (run_sync TBoolean ex_boolean_hs ([(1, 4)], None) [] RNone) = EFalse /\
+  so_st (run_sync TBoolean ex_boolean_hs ([(1, 4)], None) [] RNone) = ([(1, 4)], Some (0, [(7, 5)])) /\
+  no_abort TBoolean (firstn 2 ex_boolean_hs) ([(1, 4)], None) /\
+  aborts TBoolean (mkSH 3 2 [(1, 5)] None (beh_fun (BFalseIf 1 5)))
+         (st_after TBoolean (firstn 2 ex_boolean_hs) ([(1, 4)], None)) = true.
+Proof.
+  split; [vm_compute; reflexivity|]. split; [vm_compute; reflexivity|]. split; [vm_compute; reflexivity|].
+  split; [|vm_compute; reflexivity].
+  intros pre x post E. destruct pre as [|a [|b [|c pre]]]; cbn in E; inversion E; subst; try reflexivity.
+Qed.
 
 Lemma driver_states_reachable_l :
   forall lost fuel regs bs,
